@@ -35,7 +35,7 @@ COMPONENTS = {
              "excel_rows", "cutplace.fields (all types)", "csv", "zipfile", "ElementTree", "xlrd"],
     "stub": ["text / ODF / XLSX peers", "SimFS/SimRaw"],
 }
-PROBES_REQUIRED = ["datetime-with-time-part", "type:Decimal", "type:DateTime", "type:Integer", "type:Choice", "type:RegEx", "type:Pattern",
+PROBES_REQUIRED = ["path-rewritten-between-two-reads", "datetime-with-time-part", "type:Decimal", "type:DateTime", "type:Integer", "type:Choice", "type:RegEx", "type:Pattern",
                    "type:Constant", "type:Text", "rejected-row", "check-rejection", "end-check-fails", "ellipsis-char-in-cid"]
 
 
@@ -72,7 +72,9 @@ def generate(seed, tier):
             row[index] = rng.choice([" " + row[index], row[index] + " ", "  " + row[index]]) if row[index] else row[index]
         table.append(row)
     return {"cid": spec, "table": table, "ios": [simfs.IoConfig.draw(swarm) for _ in range(3)],
-            "ods_features": sorted(swarm.sample(["colruns", "rowruns", "stored", "colstyle", "spans"], swarm.randint(0, 2)))}
+            "ods_features": sorted(swarm.sample(["colruns", "rowruns", "stored", "colstyle", "spans", "annotations"],
+                                                swarm.randint(0, 2))),
+            "other_table_at_same_path_first": swarm.random() < 0.3}
 
 
 def _store_rows(fs, path, storage, rows, features=()):
@@ -138,6 +140,14 @@ def execute(scenario):
             if violation is None:
                 storage = STORAGES[format_index]  # rotate: each data format is read with a CID from another storage
                 data_path = tabular.data_path(spec)
+                if scenario.get("other_table_at_same_path_first") and table:
+                    # the path held other content a moment ago and was read then
+                    tabular.store(fs, data_path, spec, list(reversed(table)) + [list(table[0])], features=features)
+                    earlier = lib.ReadRun(cids[storage], data_path, "Reader", "continue")
+                    while earlier.step():
+                        pass
+                    earlier.close()
+                    result.probe("path-rewritten-between-two-reads")
                 tabular.store(fs, data_path, spec, table, features=features)
                 run = lib.ReadRun(cids[storage], data_path, "Reader", "yield")
                 while run.step():
@@ -228,6 +238,8 @@ def candidates(scenario):
         yield lib.with_value(scenario, ["cid", "sep"], ":")
     if scenario.get("ods_features"):
         yield lib.with_value(scenario, ["ods_features"], [])
+    if scenario.get("other_table_at_same_path_first"):
+        yield lib.with_value(scenario, ["other_table_at_same_path_first"], False)
     for index, field in enumerate(fields):
         if field.get("empty"):
             yield lib.with_value(scenario, ["cid", "fields", index, "empty"], False)
